@@ -224,6 +224,10 @@ func runC13(o *opts) (*summary, error) {
 			if _, err := fmt.Sscanf(v.String(), "%d-%d-%d", &yy, &mm, &d2); err != nil {
 				return M{"t": "err"}, nil
 			}
+			// (the text form is YYYY-MM-DD, four digits of year also before the year 1000: it is what ParseDate reads)
+			if v.String() != fmt.Sprintf("%04d-%02d-%02d", yy, mm, d2) {
+				return M{"t": "err", "text": v.String()}, nil
+			}
 			return M{"t": "date", "y": yy, "m": mm, "d": d2}, nil
 		})
 		if y >= 2000 && y <= 2068 {
@@ -256,6 +260,19 @@ func runC13(o *opts) (*summary, error) {
 				x := *(r.(*types.DateTime))
 				b, _ := x.MarshalUT0311L0x()
 				return projDateTime(x), b
+			})
+			// two decodes through ONE variable, the first result kept: it still reads as what it was decoded from
+			emit("DateTimeDecodeKept", "datetime", class, cdt, tex, func() (M, []byte) {
+				var v types.DateTime
+				r, err := v.UnmarshalUT0311L0x([]byte{bcd2(y / 100), bcd2(y % 100), bcd2(m), bcd2(dd), bcd2(h), bcd2(mi), bcd2(s)})
+				if err != nil {
+					return M{"t": "err"}, nil
+				}
+				first := r.(*types.DateTime)
+				if _, err := v.UnmarshalUT0311L0x([]byte{0x20, 0x01, 0x02, 0x03, 0x12, 0x05, 0x06}); err != nil {
+					return M{"t": "err"}, nil
+				}
+				return projDateTime(*first), nil
 			})
 			// a date-time the caller holds in ANOTHER Location than the process zone (fixed offsets: every civil time exists
 			// there): it is sent as its own civil fields - the process zone has no say
